@@ -644,6 +644,8 @@ func c16(c *Ctx) {
 	c16EmitTable(c, w)
 	// jump-destination analysis, getData, Memory: the real functions against LemoModel.JumpAnalysis
 	c16JumpPhase(c, w)
+	// memory ranges: the real memorySize / gasCost / execute functions and the real Run against LemoModel.MemRange
+	c16MemRangePhase(c, w)
 	// length-driven precompiles, executed in a memory-capped child process
 	g.adv = c16PrePhase(c, w) // adversarial memory operands also in the in-process generator, but only if the child found them harmless
 	w.longBudget = 12
